@@ -64,3 +64,60 @@ def declare(reg):
     reg.contract(M, "YAMLParser.parse_content", params=dict(self=DP, content=List(STR)), modifies=["DocParser.data"],
                  raises={"SkipComponent": None, "ParseException": None},
                  ensures=["self.data is not None", DOC])
+
+    # ------------------------------------------------------------------ log line search (TextFileOutput)
+    LS = U("LineSearch")          # what _valid_search returns: a total predicate on a line
+    PL = U("ParsedLine")
+    Chk = U("CheckFn")            # all / any (or another reducer of booleans)
+    reg.sort(LineSearch=LS, CheckFn=Chk)
+    reg.cls("TFO", pyclasses=["TextFileOutput", "LogFileOutput"], lines=List(STR))
+    TFO = Ref("TFO")
+    LSEM = "uf('lsem', BOOL, {f}, {l})"
+    reg.callable_sorts = getattr(reg, "callable_sorts", {})
+    reg.callable_sorts["LineSearch"] = reg.external("<line predicate>", params=collections.OrderedDict(f=LS, l=STR), returns=BOOL, pure=True, raises={},
+                                                    ensures=["result == %s" % LSEM.format(f="f", l="l")],
+                                                    note="the closure _valid_search returns: total and pure; lsem(f, line) is its truth value")
+    reg.callable_sorts["CheckFn"] = reg.external("<check>", params=collections.OrderedDict(c=Chk, bs=List(BOOL)), returns=BOOL, pure=True, raises={},
+                                                 ensures=["result == uf('chk', BOOL, c, bs)"], note="`check` is all / any: a pure function of the booleans")
+    reg.interface("TFO", "_parse_line", params=dict(self=TFO, line=STR), returns=PL, pure=True, raises={},
+                  ensures=["result == uf('pl', U('ParsedLine'), self, line)"], note="_parse_line: a pure function of the line (overridden by subclasses)")
+    # the two closures _valid_search builds: substring test; check() over the substring tests of the words
+    reg.contract(M, "TextFileOutput._valid_search.<locals>.<lambda>#0", params=dict(l=STR), returns=BOOL, free=dict(s=STR), raises={},
+                 ensures=["result == (s in l)"])
+    reg.contract(M, "TextFileOutput._valid_search.<locals>.<lambda>#1", params=dict(l=STR), returns=BOOL, free=collections.OrderedDict(s=List(STR), check=Chk), raises={},
+                 ensures=["result == uf('chk', BOOL, check, [(w in l) for w in s])"])
+    BADS = "uf('bad_search', BOOL, s)"
+    reg.interface("TFO", "_valid_search", params=collections.OrderedDict(self=TFO, s=PY, check=Chk), defaults=dict(check="uf('const_all', U('CheckFn'))"),
+                  returns=Opt(LS), pure=True,
+                  raises={"TypeError": BADS}, raise_frame="unchanged",
+                  ensures=["(result is None) == (s is None)", "implies(s is not None, some(result) == uf('search_of', U('LineSearch'), s, check))"],
+                  note="_valid_search(s, check): TypeError for anything but a string / non-empty list of strings / None; None for None; otherwise "
+                       "the predicate search_of(s, check) (its two closures are verified as units; the dispatch on the kind of s is not)")
+    SRCH = "uf('search_of', U('LineSearch'), s, check)"
+    MATCH = LSEM.format(f=SRCH, l="{l}")
+    # get(): the first `num` matching lines in scan order (from the tail when reverse), returned in original order
+    GI = ["len(gi) == len(ret)", "it_0 == lines",
+          "forall(k, range(0, len(gi)), 0 <= gi[k] and gi[k] < i_0 and %s and ret[k] == uf('pl', U('ParsedLine'), self, lines[gi[k]]))" % MATCH.format(l="lines[gi[k]]"),
+          "forall(a, range(0, len(gi)), forall(b, range(0, len(gi)), implies(a < b, gi[a] < gi[b])))",
+          "implies(num is not None, len(gi) <= unbox_int(num) or len(gi) == 0)",
+          "implies(s is None and i_0 > 0, num is not None and unbox_int(num) <= 0)",
+          # nothing that matches is skipped, except once the limit is reached
+          "forall(j, range(0, i_0), implies(%s, exists(k, range(0, len(gi)), gi[k] == j) or (num is not None and len(gi) >= unbox_int(num) and "
+          "(len(gi) == 0 or j > gi[len(gi) - 1]))))" % MATCH.format(l="lines[j]")]
+    reg.contract(M, "TextFileOutput.get", params=collections.OrderedDict(self=TFO, s=PY, check=Chk, num=PY, reverse=BOOL),
+                 defaults=collections.OrderedDict(check="uf('const_all', U('CheckFn'))", num="None", reverse="False"), returns=List(PL),
+                 locals=dict(ret=List(PL), gi=List(INT), lines=List(STR)),
+                 ghosts=collections.OrderedDict(gi=(List(INT), "[]")),
+                 ghost_on=[("ret.append(self._parse_line(l))", "gi.append(i_0)", "after")],
+                 loops={0: GI},
+                 # None as search: not callable - a TypeError as soon as one line is actually tested
+                 raises={"TypeError": "(num is not None and not isinstance(num, int)) or %s or "
+                                      "(s is None and len(self.lines) > 0 and (num is None or unbox_int(num) > 0))" % BADS}, raise_frame="unchanged",
+                 ensures=[t.replace("i_0", "len(lines)") for t in GI[2:]] + [
+                     "len(gi) == len(result)",
+                     "implies(not reverse, lines == self.lines and seq_eq(result, ret))",
+                     "implies(reverse, len(lines) == len(self.lines) and forall(k, range(0, len(lines)), lines[k] == self.lines[len(lines) - 1 - k]) and "
+                     "forall(k, range(0, len(result)), result[k] == ret[len(ret) - 1 - k]))"])
+    reg.contract(M, "TextFileOutput.__contains__", params=collections.OrderedDict(self=TFO, s=PY), returns=BOOL,
+                 raises={"TypeError": "%s or (s is None and len(self.lines) > 0)" % BADS}, raise_frame="unchanged",
+                 ensures=["result == exists(k, range(0, len(self.lines)), %s)" % LSEM.format(f="uf('search_of', U('LineSearch'), s, uf('const_all', U('CheckFn')))", l="self.lines[k]")])
